@@ -4,7 +4,9 @@
 From Coq Require Import ZArith List Bool Reals Lia Lra.
 From FT.lib Require Import Num Arr ArrLemmas Lower NumArr.
 From FT.gen Require Import Common Interp2d Interp3d Vinterp2d Vinterp3d FteikCommon Fteik2d Fteik3d Ray2d Ray3d.
+From FT.model Require Import Api.
 From FT.proofs Require Import SSR InterpR Interp3R VinterpR Vinterp3R.
+From FT.proofs Require ApiGenEq.
 Import ListNotations.
 Open Scope R_scope.
 
@@ -306,6 +308,1550 @@ Theorem C09_vinterp3d_homogeneous_exact :
        s * sqrt ((xsrc - xq) ^ 2 + (ysrc - yq) ^ 2 + (zsrc - zq) ^ 2).
 Proof. exact @Vinterp3R.vinterp3d_homogeneous_exact. Qed.
 
+(* API layer, extracted from _grid.py on every run (gen/ApiGen.v): TraveltimeGrid2D.__call__ hands (zaxis, xaxis, grid, points as float64, the stored ABSOLUTE source, vzero, fill_value) to vinterp2d, parameter by parameter; fill_value defaults to NaN *)
+Theorem C09_traveltime_call_wiring_2d :
+  ApiGen.ttcall_2d_binding =
+       [(String.String (Ascii.Ascii false false false true true true true false) String.EmptyString,
+         String.String (Ascii.Ascii true true false false true true true false)
+           (String.String (Ascii.Ascii true false true false false true true false)
+              (String.String (Ascii.Ascii false false true true false true true false)
+                 (String.String (Ascii.Ascii false true true false false true true false)
+                    (String.String (Ascii.Ascii false true true true false true false false)
+                       (String.String (Ascii.Ascii false true false true true true true false)
+                          (String.String (Ascii.Ascii true false false false false true true false)
+                             (String.String (Ascii.Ascii false false false true true true true false)
+                                (String.String (Ascii.Ascii true false false true false true true false)
+                                   (String.String (Ascii.Ascii true true false false true true true false)
+                                      String.EmptyString))))))))));
+        (String.String (Ascii.Ascii true false false true true true true false) String.EmptyString,
+         String.String (Ascii.Ascii true true false false true true true false)
+           (String.String (Ascii.Ascii true false true false false true true false)
+              (String.String (Ascii.Ascii false false true true false true true false)
+                 (String.String (Ascii.Ascii false true true false false true true false)
+                    (String.String (Ascii.Ascii false true true true false true false false)
+                       (String.String (Ascii.Ascii false false false true true true true false)
+                          (String.String (Ascii.Ascii true false false false false true true false)
+                             (String.String (Ascii.Ascii false false false true true true true false)
+                                (String.String (Ascii.Ascii true false false true false true true false)
+                                   (String.String (Ascii.Ascii true true false false true true true false)
+                                      String.EmptyString))))))))));
+        (String.String (Ascii.Ascii false true true false true true true false) String.EmptyString,
+         String.String (Ascii.Ascii true true false false true true true false)
+           (String.String (Ascii.Ascii true false true false false true true false)
+              (String.String (Ascii.Ascii false false true true false true true false)
+                 (String.String (Ascii.Ascii false true true false false true true false)
+                    (String.String (Ascii.Ascii false true true true false true false false)
+                       (String.String (Ascii.Ascii true true true true true false true false)
+                          (String.String (Ascii.Ascii true true true false false true true false)
+                             (String.String (Ascii.Ascii false true false false true true true false)
+                                (String.String (Ascii.Ascii true false false true false true true false)
+                                   (String.String (Ascii.Ascii false false true false false true true false)
+                                      String.EmptyString))))))))));
+        (String.String (Ascii.Ascii true false false false true true true false) String.EmptyString,
+         String.String (Ascii.Ascii false true true true false true true false)
+           (String.String (Ascii.Ascii false false false false true true true false)
+              (String.String (Ascii.Ascii false true true true false true false false)
+                 (String.String (Ascii.Ascii true false false false false true true false)
+                    (String.String (Ascii.Ascii true true false false true true true false)
+                       (String.String (Ascii.Ascii true false false false false true true false)
+                          (String.String (Ascii.Ascii false true false false true true true false)
+                             (String.String (Ascii.Ascii false true false false true true true false)
+                                (String.String (Ascii.Ascii true false false false false true true false)
+                                   (String.String (Ascii.Ascii true false false true true true true false)
+                                      (String.String (Ascii.Ascii false false false true false true false false)
+                                         (String.String (Ascii.Ascii false false false false true true true false)
+                                            (String.String (Ascii.Ascii true true true true false true true false)
+                                               (String.String (Ascii.Ascii true false false true false true true false)
+                                                  (String.String
+                                                     (Ascii.Ascii false true true true false true true false)
+                                                     (String.String
+                                                        (Ascii.Ascii false false true false true true true false)
+                                                        (String.String
+                                                           (Ascii.Ascii true true false false true true true false)
+                                                           (String.String
+                                                              (Ascii.Ascii false false true true false true false false)
+                                                              (String.String
+                                                                 (Ascii.Ascii false false false false false true false
+                                                                    false)
+                                                                 (String.String
+                                                                    (Ascii.Ascii false false true false false true true
+                                                                       false)
+                                                                    (String.String
+                                                                       (Ascii.Ascii false false true false true true
+                                                                          true false)
+                                                                       (String.String
+                                                                          (Ascii.Ascii true false false true true true
+                                                                             true false)
+                                                                          (String.String
+                                                                             (Ascii.Ascii false false false false true
+                                                                                true true false)
+                                                                             (String.String
+                                                                                (Ascii.Ascii true false true false
+                                                                                   false true true false)
+                                                                                (String.String
+                                                                                   (Ascii.Ascii true false true true
+                                                                                      true true false false)
+                                                                                   (String.String
+                                                                                      (Ascii.Ascii false true true true
+                                                                                         false true true false)
+                                                                                      (String.String
+                                                                                         (Ascii.Ascii false false false
+                                                                                          false true true true false)
+                                                                                         (String.String
+                                                                                          (Ascii.Ascii false true true
+                                                                                          true false true false false)
+                                                                                          (String.String
+                                                                                          (Ascii.Ascii false true true
+                                                                                          false false true true false)
+                                                                                          (String.String
+                                                                                          (Ascii.Ascii false false true
+                                                                                          true false true true false)
+                                                                                          (String.String
+                                                                                          (Ascii.Ascii true true true
+                                                                                          true false true true false)
+                                                                                          (String.String
+                                                                                          (Ascii.Ascii true false false
+                                                                                          false false true true false)
+                                                                                          (String.String
+                                                                                          (Ascii.Ascii false false true
+                                                                                          false true true true false)
+                                                                                          (String.String
+                                                                                          (Ascii.Ascii false true true
+                                                                                          false true true false false)
+                                                                                          (String.String
+                                                                                          (Ascii.Ascii false false true
+                                                                                          false true true false false)
+                                                                                          (String.String
+                                                                                          (Ascii.Ascii true false false
+                                                                                          true false true false false)
+                                                                                          String.EmptyString))))))))))))))))))))))))))))))))))));
+        (String.String (Ascii.Ascii true true false false true true true false)
+           (String.String (Ascii.Ascii false true false false true true true false)
+              (String.String (Ascii.Ascii true true false false false true true false) String.EmptyString)),
+         String.String (Ascii.Ascii true true false false true true true false)
+           (String.String (Ascii.Ascii true false true false false true true false)
+              (String.String (Ascii.Ascii false false true true false true true false)
+                 (String.String (Ascii.Ascii false true true false false true true false)
+                    (String.String (Ascii.Ascii false true true true false true false false)
+                       (String.String (Ascii.Ascii true true true true true false true false)
+                          (String.String (Ascii.Ascii true true false false true true true false)
+                             (String.String (Ascii.Ascii true true true true false true true false)
+                                (String.String (Ascii.Ascii true false true false true true true false)
+                                   (String.String (Ascii.Ascii false true false false true true true false)
+                                      (String.String (Ascii.Ascii true true false false false true true false)
+                                         (String.String (Ascii.Ascii true false true false false true true false)
+                                            String.EmptyString))))))))))));
+        (String.String (Ascii.Ascii false true true false true true true false)
+           (String.String (Ascii.Ascii false true false true true true true false)
+              (String.String (Ascii.Ascii true false true false false true true false)
+                 (String.String (Ascii.Ascii false true false false true true true false)
+                    (String.String (Ascii.Ascii true true true true false true true false) String.EmptyString)))),
+         String.String (Ascii.Ascii true true false false true true true false)
+           (String.String (Ascii.Ascii true false true false false true true false)
+              (String.String (Ascii.Ascii false false true true false true true false)
+                 (String.String (Ascii.Ascii false true true false false true true false)
+                    (String.String (Ascii.Ascii false true true true false true false false)
+                       (String.String (Ascii.Ascii true true true true true false true false)
+                          (String.String (Ascii.Ascii false true true false true true true false)
+                             (String.String (Ascii.Ascii false true false true true true true false)
+                                (String.String (Ascii.Ascii true false true false false true true false)
+                                   (String.String (Ascii.Ascii false true false false true true true false)
+                                      (String.String (Ascii.Ascii true true true true false true true false)
+                                         String.EmptyString)))))))))));
+        (String.String (Ascii.Ascii false true true false false true true false)
+           (String.String (Ascii.Ascii false true true false true true true false)
+              (String.String (Ascii.Ascii true false false false false true true false)
+                 (String.String (Ascii.Ascii false false true true false true true false) String.EmptyString))),
+         String.String (Ascii.Ascii false true true false false true true false)
+           (String.String (Ascii.Ascii true false false true false true true false)
+              (String.String (Ascii.Ascii false false true true false true true false)
+                 (String.String (Ascii.Ascii false false true true false true true false)
+                    (String.String (Ascii.Ascii true true true true true false true false)
+                       (String.String (Ascii.Ascii false true true false true true true false)
+                          (String.String (Ascii.Ascii true false false false false true true false)
+                             (String.String (Ascii.Ascii false false true true false true true false)
+                                (String.String (Ascii.Ascii true false true false true true true false)
+                                   (String.String (Ascii.Ascii true false true false false true true false)
+                                      String.EmptyString))))))))))] /\
+       fst ApiGen.ttcall_2d_call =
+       String.String (Ascii.Ascii false true true false true true true false)
+         (String.String (Ascii.Ascii true false false true false true true false)
+            (String.String (Ascii.Ascii false true true true false true true false)
+               (String.String (Ascii.Ascii false false true false true true true false)
+                  (String.String (Ascii.Ascii true false true false false true true false)
+                     (String.String (Ascii.Ascii false true false false true true true false)
+                        (String.String (Ascii.Ascii false false false false true true true false)
+                           (String.String (Ascii.Ascii false true false false true true false false)
+                              (String.String (Ascii.Ascii false false true false false true true false)
+                                 String.EmptyString)))))))) /\
+       map fst ApiGen.ttcall_2d_binding = ApiGen.vinterp2d_params /\
+       map snd ApiGen.ttcall_2d_binding = snd ApiGen.ttcall_2d_call /\
+       ApiGen.ttcall_2d_params =
+       [String.String (Ascii.Ascii false false false false true true true false)
+          (String.String (Ascii.Ascii true true true true false true true false)
+             (String.String (Ascii.Ascii true false false true false true true false)
+                (String.String (Ascii.Ascii false true true true false true true false)
+                   (String.String (Ascii.Ascii false false true false true true true false)
+                      (String.String (Ascii.Ascii true true false false true true true false) String.EmptyString)))));
+        String.String (Ascii.Ascii false true true false false true true false)
+          (String.String (Ascii.Ascii true false false true false true true false)
+             (String.String (Ascii.Ascii false false true true false true true false)
+                (String.String (Ascii.Ascii false false true true false true true false)
+                   (String.String (Ascii.Ascii true true true true true false true false)
+                      (String.String (Ascii.Ascii false true true false true true true false)
+                         (String.String (Ascii.Ascii true false false false false true true false)
+                            (String.String (Ascii.Ascii false false true true false true true false)
+                               (String.String (Ascii.Ascii true false true false true true true false)
+                                  (String.String (Ascii.Ascii true false true false false true true false)
+                                     (String.String (Ascii.Ascii true false true true true true false false)
+                                        (String.String (Ascii.Ascii false true true true false true true false)
+                                           (String.String (Ascii.Ascii false false false false true true true false)
+                                              (String.String (Ascii.Ascii false true true true false true false false)
+                                                 (String.String
+                                                    (Ascii.Ascii false true true true false true true false)
+                                                    (String.String
+                                                       (Ascii.Ascii true false false false false true true false)
+                                                       (String.String
+                                                          (Ascii.Ascii false true true true false true true false)
+                                                          String.EmptyString))))))))))))))))] /\
+       ApiGen.vinterp2d_defaults =
+       [(String.String (Ascii.Ascii false true true false false true true false)
+           (String.String (Ascii.Ascii false true true false true true true false)
+              (String.String (Ascii.Ascii true false false false false true true false)
+                 (String.String (Ascii.Ascii false false true true false true true false) String.EmptyString))),
+         String.String (Ascii.Ascii false true true true false true true false)
+           (String.String (Ascii.Ascii false false false false true true true false)
+              (String.String (Ascii.Ascii false true true true false true false false)
+                 (String.String (Ascii.Ascii false true true true false true true false)
+                    (String.String (Ascii.Ascii true false false false false true true false)
+                       (String.String (Ascii.Ascii false true true true false true true false) String.EmptyString))))))].
+Proof. exact @ApiGenEq.gen_ttcall_2d_wiring. Qed.
+
+(* 3D *)
+Theorem C09_traveltime_call_wiring_3d :
+  ApiGen.ttcall_3d_binding =
+       [(String.String (Ascii.Ascii false false false true true true true false) String.EmptyString,
+         String.String (Ascii.Ascii true true false false true true true false)
+           (String.String (Ascii.Ascii true false true false false true true false)
+              (String.String (Ascii.Ascii false false true true false true true false)
+                 (String.String (Ascii.Ascii false true true false false true true false)
+                    (String.String (Ascii.Ascii false true true true false true false false)
+                       (String.String (Ascii.Ascii false true false true true true true false)
+                          (String.String (Ascii.Ascii true false false false false true true false)
+                             (String.String (Ascii.Ascii false false false true true true true false)
+                                (String.String (Ascii.Ascii true false false true false true true false)
+                                   (String.String (Ascii.Ascii true true false false true true true false)
+                                      String.EmptyString))))))))));
+        (String.String (Ascii.Ascii true false false true true true true false) String.EmptyString,
+         String.String (Ascii.Ascii true true false false true true true false)
+           (String.String (Ascii.Ascii true false true false false true true false)
+              (String.String (Ascii.Ascii false false true true false true true false)
+                 (String.String (Ascii.Ascii false true true false false true true false)
+                    (String.String (Ascii.Ascii false true true true false true false false)
+                       (String.String (Ascii.Ascii false false false true true true true false)
+                          (String.String (Ascii.Ascii true false false false false true true false)
+                             (String.String (Ascii.Ascii false false false true true true true false)
+                                (String.String (Ascii.Ascii true false false true false true true false)
+                                   (String.String (Ascii.Ascii true true false false true true true false)
+                                      String.EmptyString))))))))));
+        (String.String (Ascii.Ascii false true false true true true true false) String.EmptyString,
+         String.String (Ascii.Ascii true true false false true true true false)
+           (String.String (Ascii.Ascii true false true false false true true false)
+              (String.String (Ascii.Ascii false false true true false true true false)
+                 (String.String (Ascii.Ascii false true true false false true true false)
+                    (String.String (Ascii.Ascii false true true true false true false false)
+                       (String.String (Ascii.Ascii true false false true true true true false)
+                          (String.String (Ascii.Ascii true false false false false true true false)
+                             (String.String (Ascii.Ascii false false false true true true true false)
+                                (String.String (Ascii.Ascii true false false true false true true false)
+                                   (String.String (Ascii.Ascii true true false false true true true false)
+                                      String.EmptyString))))))))));
+        (String.String (Ascii.Ascii false true true false true true true false) String.EmptyString,
+         String.String (Ascii.Ascii true true false false true true true false)
+           (String.String (Ascii.Ascii true false true false false true true false)
+              (String.String (Ascii.Ascii false false true true false true true false)
+                 (String.String (Ascii.Ascii false true true false false true true false)
+                    (String.String (Ascii.Ascii false true true true false true false false)
+                       (String.String (Ascii.Ascii true true true true true false true false)
+                          (String.String (Ascii.Ascii true true true false false true true false)
+                             (String.String (Ascii.Ascii false true false false true true true false)
+                                (String.String (Ascii.Ascii true false false true false true true false)
+                                   (String.String (Ascii.Ascii false false true false false true true false)
+                                      String.EmptyString))))))))));
+        (String.String (Ascii.Ascii true false false false true true true false) String.EmptyString,
+         String.String (Ascii.Ascii false true true true false true true false)
+           (String.String (Ascii.Ascii false false false false true true true false)
+              (String.String (Ascii.Ascii false true true true false true false false)
+                 (String.String (Ascii.Ascii true false false false false true true false)
+                    (String.String (Ascii.Ascii true true false false true true true false)
+                       (String.String (Ascii.Ascii true false false false false true true false)
+                          (String.String (Ascii.Ascii false true false false true true true false)
+                             (String.String (Ascii.Ascii false true false false true true true false)
+                                (String.String (Ascii.Ascii true false false false false true true false)
+                                   (String.String (Ascii.Ascii true false false true true true true false)
+                                      (String.String (Ascii.Ascii false false false true false true false false)
+                                         (String.String (Ascii.Ascii false false false false true true true false)
+                                            (String.String (Ascii.Ascii true true true true false true true false)
+                                               (String.String (Ascii.Ascii true false false true false true true false)
+                                                  (String.String
+                                                     (Ascii.Ascii false true true true false true true false)
+                                                     (String.String
+                                                        (Ascii.Ascii false false true false true true true false)
+                                                        (String.String
+                                                           (Ascii.Ascii true true false false true true true false)
+                                                           (String.String
+                                                              (Ascii.Ascii false false true true false true false false)
+                                                              (String.String
+                                                                 (Ascii.Ascii false false false false false true false
+                                                                    false)
+                                                                 (String.String
+                                                                    (Ascii.Ascii false false true false false true true
+                                                                       false)
+                                                                    (String.String
+                                                                       (Ascii.Ascii false false true false true true
+                                                                          true false)
+                                                                       (String.String
+                                                                          (Ascii.Ascii true false false true true true
+                                                                             true false)
+                                                                          (String.String
+                                                                             (Ascii.Ascii false false false false true
+                                                                                true true false)
+                                                                             (String.String
+                                                                                (Ascii.Ascii true false true false
+                                                                                   false true true false)
+                                                                                (String.String
+                                                                                   (Ascii.Ascii true false true true
+                                                                                      true true false false)
+                                                                                   (String.String
+                                                                                      (Ascii.Ascii false true true true
+                                                                                         false true true false)
+                                                                                      (String.String
+                                                                                         (Ascii.Ascii false false false
+                                                                                          false true true true false)
+                                                                                         (String.String
+                                                                                          (Ascii.Ascii false true true
+                                                                                          true false true false false)
+                                                                                          (String.String
+                                                                                          (Ascii.Ascii false true true
+                                                                                          false false true true false)
+                                                                                          (String.String
+                                                                                          (Ascii.Ascii false false true
+                                                                                          true false true true false)
+                                                                                          (String.String
+                                                                                          (Ascii.Ascii true true true
+                                                                                          true false true true false)
+                                                                                          (String.String
+                                                                                          (Ascii.Ascii true false false
+                                                                                          false false true true false)
+                                                                                          (String.String
+                                                                                          (Ascii.Ascii false false true
+                                                                                          false true true true false)
+                                                                                          (String.String
+                                                                                          (Ascii.Ascii false true true
+                                                                                          false true true false false)
+                                                                                          (String.String
+                                                                                          (Ascii.Ascii false false true
+                                                                                          false true true false false)
+                                                                                          (String.String
+                                                                                          (Ascii.Ascii true false false
+                                                                                          true false true false false)
+                                                                                          String.EmptyString))))))))))))))))))))))))))))))))))));
+        (String.String (Ascii.Ascii true true false false true true true false)
+           (String.String (Ascii.Ascii false true false false true true true false)
+              (String.String (Ascii.Ascii true true false false false true true false) String.EmptyString)),
+         String.String (Ascii.Ascii true true false false true true true false)
+           (String.String (Ascii.Ascii true false true false false true true false)
+              (String.String (Ascii.Ascii false false true true false true true false)
+                 (String.String (Ascii.Ascii false true true false false true true false)
+                    (String.String (Ascii.Ascii false true true true false true false false)
+                       (String.String (Ascii.Ascii true true true true true false true false)
+                          (String.String (Ascii.Ascii true true false false true true true false)
+                             (String.String (Ascii.Ascii true true true true false true true false)
+                                (String.String (Ascii.Ascii true false true false true true true false)
+                                   (String.String (Ascii.Ascii false true false false true true true false)
+                                      (String.String (Ascii.Ascii true true false false false true true false)
+                                         (String.String (Ascii.Ascii true false true false false true true false)
+                                            String.EmptyString))))))))))));
+        (String.String (Ascii.Ascii false true true false true true true false)
+           (String.String (Ascii.Ascii false true false true true true true false)
+              (String.String (Ascii.Ascii true false true false false true true false)
+                 (String.String (Ascii.Ascii false true false false true true true false)
+                    (String.String (Ascii.Ascii true true true true false true true false) String.EmptyString)))),
+         String.String (Ascii.Ascii true true false false true true true false)
+           (String.String (Ascii.Ascii true false true false false true true false)
+              (String.String (Ascii.Ascii false false true true false true true false)
+                 (String.String (Ascii.Ascii false true true false false true true false)
+                    (String.String (Ascii.Ascii false true true true false true false false)
+                       (String.String (Ascii.Ascii true true true true true false true false)
+                          (String.String (Ascii.Ascii false true true false true true true false)
+                             (String.String (Ascii.Ascii false true false true true true true false)
+                                (String.String (Ascii.Ascii true false true false false true true false)
+                                   (String.String (Ascii.Ascii false true false false true true true false)
+                                      (String.String (Ascii.Ascii true true true true false true true false)
+                                         String.EmptyString)))))))))));
+        (String.String (Ascii.Ascii false true true false false true true false)
+           (String.String (Ascii.Ascii false true true false true true true false)
+              (String.String (Ascii.Ascii true false false false false true true false)
+                 (String.String (Ascii.Ascii false false true true false true true false) String.EmptyString))),
+         String.String (Ascii.Ascii false true true false false true true false)
+           (String.String (Ascii.Ascii true false false true false true true false)
+              (String.String (Ascii.Ascii false false true true false true true false)
+                 (String.String (Ascii.Ascii false false true true false true true false)
+                    (String.String (Ascii.Ascii true true true true true false true false)
+                       (String.String (Ascii.Ascii false true true false true true true false)
+                          (String.String (Ascii.Ascii true false false false false true true false)
+                             (String.String (Ascii.Ascii false false true true false true true false)
+                                (String.String (Ascii.Ascii true false true false true true true false)
+                                   (String.String (Ascii.Ascii true false true false false true true false)
+                                      String.EmptyString))))))))))] /\
+       fst ApiGen.ttcall_3d_call =
+       String.String (Ascii.Ascii false true true false true true true false)
+         (String.String (Ascii.Ascii true false false true false true true false)
+            (String.String (Ascii.Ascii false true true true false true true false)
+               (String.String (Ascii.Ascii false false true false true true true false)
+                  (String.String (Ascii.Ascii true false true false false true true false)
+                     (String.String (Ascii.Ascii false true false false true true true false)
+                        (String.String (Ascii.Ascii false false false false true true true false)
+                           (String.String (Ascii.Ascii true true false false true true false false)
+                              (String.String (Ascii.Ascii false false true false false true true false)
+                                 String.EmptyString)))))))) /\
+       map fst ApiGen.ttcall_3d_binding = ApiGen.vinterp3d_params /\
+       map snd ApiGen.ttcall_3d_binding = snd ApiGen.ttcall_3d_call /\
+       ApiGen.ttcall_3d_params =
+       [String.String (Ascii.Ascii false false false false true true true false)
+          (String.String (Ascii.Ascii true true true true false true true false)
+             (String.String (Ascii.Ascii true false false true false true true false)
+                (String.String (Ascii.Ascii false true true true false true true false)
+                   (String.String (Ascii.Ascii false false true false true true true false)
+                      (String.String (Ascii.Ascii true true false false true true true false) String.EmptyString)))));
+        String.String (Ascii.Ascii false true true false false true true false)
+          (String.String (Ascii.Ascii true false false true false true true false)
+             (String.String (Ascii.Ascii false false true true false true true false)
+                (String.String (Ascii.Ascii false false true true false true true false)
+                   (String.String (Ascii.Ascii true true true true true false true false)
+                      (String.String (Ascii.Ascii false true true false true true true false)
+                         (String.String (Ascii.Ascii true false false false false true true false)
+                            (String.String (Ascii.Ascii false false true true false true true false)
+                               (String.String (Ascii.Ascii true false true false true true true false)
+                                  (String.String (Ascii.Ascii true false true false false true true false)
+                                     (String.String (Ascii.Ascii true false true true true true false false)
+                                        (String.String (Ascii.Ascii false true true true false true true false)
+                                           (String.String (Ascii.Ascii false false false false true true true false)
+                                              (String.String (Ascii.Ascii false true true true false true false false)
+                                                 (String.String
+                                                    (Ascii.Ascii false true true true false true true false)
+                                                    (String.String
+                                                       (Ascii.Ascii true false false false false true true false)
+                                                       (String.String
+                                                          (Ascii.Ascii false true true true false true true false)
+                                                          String.EmptyString))))))))))))))))] /\
+       ApiGen.vinterp3d_defaults =
+       [(String.String (Ascii.Ascii false true true false false true true false)
+           (String.String (Ascii.Ascii false true true false true true true false)
+              (String.String (Ascii.Ascii true false false false false true true false)
+                 (String.String (Ascii.Ascii false false true true false true true false) String.EmptyString))),
+         String.String (Ascii.Ascii false true true true false true true false)
+           (String.String (Ascii.Ascii false false false false true true true false)
+              (String.String (Ascii.Ascii false true true true false true false false)
+                 (String.String (Ascii.Ascii false true true true false true true false)
+                    (String.String (Ascii.Ascii true false false false false true true false)
+                       (String.String (Ascii.Ascii false true true true false true true false) String.EmptyString))))))].
+Proof. exact @ApiGenEq.gen_ttcall_3d_wiring. Qed.
+
+(* which constructor keyword is stored in which attribute (grid, gridsize, origin, source, gradient, vzero), with the float64 conversions *)
+Theorem C09_traveltime_grid_constructor_2d :
+  ApiGen.ttinit_2d_params =
+       [String.String (Ascii.Ascii true true true false false true true false)
+          (String.String (Ascii.Ascii false true false false true true true false)
+             (String.String (Ascii.Ascii true false false true false true true false)
+                (String.String (Ascii.Ascii false false true false false true true false) String.EmptyString)));
+        String.String (Ascii.Ascii true true true false false true true false)
+          (String.String (Ascii.Ascii false true false false true true true false)
+             (String.String (Ascii.Ascii true false false true false true true false)
+                (String.String (Ascii.Ascii false false true false false true true false)
+                   (String.String (Ascii.Ascii true true false false true true true false)
+                      (String.String (Ascii.Ascii true false false true false true true false)
+                         (String.String (Ascii.Ascii false true false true true true true false)
+                            (String.String (Ascii.Ascii true false true false false true true false) String.EmptyString)))))));
+        String.String (Ascii.Ascii true true true true false true true false)
+          (String.String (Ascii.Ascii false true false false true true true false)
+             (String.String (Ascii.Ascii true false false true false true true false)
+                (String.String (Ascii.Ascii true true true false false true true false)
+                   (String.String (Ascii.Ascii true false false true false true true false)
+                      (String.String (Ascii.Ascii false true true true false true true false) String.EmptyString)))));
+        String.String (Ascii.Ascii true true false false true true true false)
+          (String.String (Ascii.Ascii true true true true false true true false)
+             (String.String (Ascii.Ascii true false true false true true true false)
+                (String.String (Ascii.Ascii false true false false true true true false)
+                   (String.String (Ascii.Ascii true true false false false true true false)
+                      (String.String (Ascii.Ascii true false true false false true true false) String.EmptyString)))));
+        String.String (Ascii.Ascii true true true false false true true false)
+          (String.String (Ascii.Ascii false true false false true true true false)
+             (String.String (Ascii.Ascii true false false false false true true false)
+                (String.String (Ascii.Ascii false false true false false true true false)
+                   (String.String (Ascii.Ascii true false false true false true true false)
+                      (String.String (Ascii.Ascii true false true false false true true false)
+                         (String.String (Ascii.Ascii false true true true false true true false)
+                            (String.String (Ascii.Ascii false false true false true true true false) String.EmptyString)))))));
+        String.String (Ascii.Ascii false true true false true true true false)
+          (String.String (Ascii.Ascii false true false true true true true false)
+             (String.String (Ascii.Ascii true false true false false true true false)
+                (String.String (Ascii.Ascii false true false false true true true false)
+                   (String.String (Ascii.Ascii true true true true false true true false) String.EmptyString))))] /\
+       ApiGen.ttinit_2d_super =
+       [(String.String (Ascii.Ascii true true true false false true true false)
+           (String.String (Ascii.Ascii false true false false true true true false)
+              (String.String (Ascii.Ascii true false false true false true true false)
+                 (String.String (Ascii.Ascii false false true false false true true false) String.EmptyString))),
+         String.String (Ascii.Ascii true true true false false true true false)
+           (String.String (Ascii.Ascii false true false false true true true false)
+              (String.String (Ascii.Ascii true false false true false true true false)
+                 (String.String (Ascii.Ascii false false true false false true true false) String.EmptyString))));
+        (String.String (Ascii.Ascii true true true false false true true false)
+           (String.String (Ascii.Ascii false true false false true true true false)
+              (String.String (Ascii.Ascii true false false true false true true false)
+                 (String.String (Ascii.Ascii false false true false false true true false)
+                    (String.String (Ascii.Ascii true true false false true true true false)
+                       (String.String (Ascii.Ascii true false false true false true true false)
+                          (String.String (Ascii.Ascii false true false true true true true false)
+                             (String.String (Ascii.Ascii true false true false false true true false)
+                                String.EmptyString))))))),
+         String.String (Ascii.Ascii true true true false false true true false)
+           (String.String (Ascii.Ascii false true false false true true true false)
+              (String.String (Ascii.Ascii true false false true false true true false)
+                 (String.String (Ascii.Ascii false false true false false true true false)
+                    (String.String (Ascii.Ascii true true false false true true true false)
+                       (String.String (Ascii.Ascii true false false true false true true false)
+                          (String.String (Ascii.Ascii false true false true true true true false)
+                             (String.String (Ascii.Ascii true false true false false true true false)
+                                String.EmptyString))))))));
+        (String.String (Ascii.Ascii true true true true false true true false)
+           (String.String (Ascii.Ascii false true false false true true true false)
+              (String.String (Ascii.Ascii true false false true false true true false)
+                 (String.String (Ascii.Ascii true true true false false true true false)
+                    (String.String (Ascii.Ascii true false false true false true true false)
+                       (String.String (Ascii.Ascii false true true true false true true false) String.EmptyString))))),
+         String.String (Ascii.Ascii false true true true false true true false)
+           (String.String (Ascii.Ascii false false false false true true true false)
+              (String.String (Ascii.Ascii false true true true false true false false)
+                 (String.String (Ascii.Ascii true false false false false true true false)
+                    (String.String (Ascii.Ascii true true false false true true true false)
+                       (String.String (Ascii.Ascii true false false false false true true false)
+                          (String.String (Ascii.Ascii false true false false true true true false)
+                             (String.String (Ascii.Ascii false true false false true true true false)
+                                (String.String (Ascii.Ascii true false false false false true true false)
+                                   (String.String (Ascii.Ascii true false false true true true true false)
+                                      (String.String (Ascii.Ascii false false false true false true false false)
+                                         (String.String (Ascii.Ascii true true true true false true true false)
+                                            (String.String (Ascii.Ascii false true false false true true true false)
+                                               (String.String (Ascii.Ascii true false false true false true true false)
+                                                  (String.String
+                                                     (Ascii.Ascii true true true false false true true false)
+                                                     (String.String
+                                                        (Ascii.Ascii true false false true false true true false)
+                                                        (String.String
+                                                           (Ascii.Ascii false true true true false true true false)
+                                                           (String.String
+                                                              (Ascii.Ascii false false true true false true false false)
+                                                              (String.String
+                                                                 (Ascii.Ascii false false false false false true false
+                                                                    false)
+                                                                 (String.String
+                                                                    (Ascii.Ascii false false true false false true true
+                                                                       false)
+                                                                    (String.String
+                                                                       (Ascii.Ascii false false true false true true
+                                                                          true false)
+                                                                       (String.String
+                                                                          (Ascii.Ascii true false false true true true
+                                                                             true false)
+                                                                          (String.String
+                                                                             (Ascii.Ascii false false false false true
+                                                                                true true false)
+                                                                             (String.String
+                                                                                (Ascii.Ascii true false true false
+                                                                                   false true true false)
+                                                                                (String.String
+                                                                                   (Ascii.Ascii true false true true
+                                                                                      true true false false)
+                                                                                   (String.String
+                                                                                      (Ascii.Ascii false true true true
+                                                                                         false true true false)
+                                                                                      (String.String
+                                                                                         (Ascii.Ascii false false false
+                                                                                          false true true true false)
+                                                                                         (String.String
+                                                                                          (Ascii.Ascii false true true
+                                                                                          true false true false false)
+                                                                                          (String.String
+                                                                                          (Ascii.Ascii false true true
+                                                                                          false false true true false)
+                                                                                          (String.String
+                                                                                          (Ascii.Ascii false false true
+                                                                                          true false true true false)
+                                                                                          (String.String
+                                                                                          (Ascii.Ascii true true true
+                                                                                          true false true true false)
+                                                                                          (String.String
+                                                                                          (Ascii.Ascii true false false
+                                                                                          false false true true false)
+                                                                                          (String.String
+                                                                                          (Ascii.Ascii false false true
+                                                                                          false true true true false)
+                                                                                          (String.String
+                                                                                          (Ascii.Ascii false true true
+                                                                                          false true true false false)
+                                                                                          (String.String
+                                                                                          (Ascii.Ascii false false true
+                                                                                          false true true false false)
+                                                                                          (String.String
+                                                                                          (Ascii.Ascii true false false
+                                                                                          true false true false false)
+                                                                                          String.EmptyString))))))))))))))))))))))))))))))))))));
+        (String.String (Ascii.Ascii true true false false true true true false)
+           (String.String (Ascii.Ascii true true true true false true true false)
+              (String.String (Ascii.Ascii true false true false true true true false)
+                 (String.String (Ascii.Ascii false true false false true true true false)
+                    (String.String (Ascii.Ascii true true false false false true true false)
+                       (String.String (Ascii.Ascii true false true false false true true false) String.EmptyString))))),
+         String.String (Ascii.Ascii false true true true false true true false)
+           (String.String (Ascii.Ascii false false false false true true true false)
+              (String.String (Ascii.Ascii false true true true false true false false)
+                 (String.String (Ascii.Ascii true false false false false true true false)
+                    (String.String (Ascii.Ascii true true false false true true true false)
+                       (String.String (Ascii.Ascii true false false false false true true false)
+                          (String.String (Ascii.Ascii false true false false true true true false)
+                             (String.String (Ascii.Ascii false true false false true true true false)
+                                (String.String (Ascii.Ascii true false false false false true true false)
+                                   (String.String (Ascii.Ascii true false false true true true true false)
+                                      (String.String (Ascii.Ascii false false false true false true false false)
+                                         (String.String (Ascii.Ascii true true false false true true true false)
+                                            (String.String (Ascii.Ascii true true true true false true true false)
+                                               (String.String (Ascii.Ascii true false true false true true true false)
+                                                  (String.String
+                                                     (Ascii.Ascii false true false false true true true false)
+                                                     (String.String
+                                                        (Ascii.Ascii true true false false false true true false)
+                                                        (String.String
+                                                           (Ascii.Ascii true false true false false true true false)
+                                                           (String.String
+                                                              (Ascii.Ascii false false true true false true false false)
+                                                              (String.String
+                                                                 (Ascii.Ascii false false false false false true false
+                                                                    false)
+                                                                 (String.String
+                                                                    (Ascii.Ascii false false true false false true true
+                                                                       false)
+                                                                    (String.String
+                                                                       (Ascii.Ascii false false true false true true
+                                                                          true false)
+                                                                       (String.String
+                                                                          (Ascii.Ascii true false false true true true
+                                                                             true false)
+                                                                          (String.String
+                                                                             (Ascii.Ascii false false false false true
+                                                                                true true false)
+                                                                             (String.String
+                                                                                (Ascii.Ascii true false true false
+                                                                                   false true true false)
+                                                                                (String.String
+                                                                                   (Ascii.Ascii true false true true
+                                                                                      true true false false)
+                                                                                   (String.String
+                                                                                      (Ascii.Ascii false true true true
+                                                                                         false true true false)
+                                                                                      (String.String
+                                                                                         (Ascii.Ascii false false false
+                                                                                          false true true true false)
+                                                                                         (String.String
+                                                                                          (Ascii.Ascii false true true
+                                                                                          true false true false false)
+                                                                                          (String.String
+                                                                                          (Ascii.Ascii false true true
+                                                                                          false false true true false)
+                                                                                          (String.String
+                                                                                          (Ascii.Ascii false false true
+                                                                                          true false true true false)
+                                                                                          (String.String
+                                                                                          (Ascii.Ascii true true true
+                                                                                          true false true true false)
+                                                                                          (String.String
+                                                                                          (Ascii.Ascii true false false
+                                                                                          false false true true false)
+                                                                                          (String.String
+                                                                                          (Ascii.Ascii false false true
+                                                                                          false true true true false)
+                                                                                          (String.String
+                                                                                          (Ascii.Ascii false true true
+                                                                                          false true true false false)
+                                                                                          (String.String
+                                                                                          (Ascii.Ascii false false true
+                                                                                          false true true false false)
+                                                                                          (String.String
+                                                                                          (Ascii.Ascii true false false
+                                                                                          true false true false false)
+                                                                                          String.EmptyString))))))))))))))))))))))))))))))))))));
+        (String.String (Ascii.Ascii true true true false false true true false)
+           (String.String (Ascii.Ascii false true false false true true true false)
+              (String.String (Ascii.Ascii true false false false false true true false)
+                 (String.String (Ascii.Ascii false false true false false true true false)
+                    (String.String (Ascii.Ascii true false false true false true true false)
+                       (String.String (Ascii.Ascii true false true false false true true false)
+                          (String.String (Ascii.Ascii false true true true false true true false)
+                             (String.String (Ascii.Ascii false false true false true true true false)
+                                String.EmptyString))))))),
+         String.String (Ascii.Ascii false true true true false true true false)
+           (String.String (Ascii.Ascii false false false false true true true false)
+              (String.String (Ascii.Ascii false true true true false true false false)
+                 (String.String (Ascii.Ascii true false false false false true true false)
+                    (String.String (Ascii.Ascii true true false false true true true false)
+                       (String.String (Ascii.Ascii true false false false false true true false)
+                          (String.String (Ascii.Ascii false true false false true true true false)
+                             (String.String (Ascii.Ascii false true false false true true true false)
+                                (String.String (Ascii.Ascii true false false false false true true false)
+                                   (String.String (Ascii.Ascii true false false true true true true false)
+                                      (String.String (Ascii.Ascii false false false true false true false false)
+                                         (String.String (Ascii.Ascii true true true false false true true false)
+                                            (String.String (Ascii.Ascii false true false false true true true false)
+                                               (String.String
+                                                  (Ascii.Ascii true false false false false true true false)
+                                                  (String.String
+                                                     (Ascii.Ascii false false true false false true true false)
+                                                     (String.String
+                                                        (Ascii.Ascii true false false true false true true false)
+                                                        (String.String
+                                                           (Ascii.Ascii true false true false false true true false)
+                                                           (String.String
+                                                              (Ascii.Ascii false true true true false true true false)
+                                                              (String.String
+                                                                 (Ascii.Ascii false false true false true true true
+                                                                    false)
+                                                                 (String.String
+                                                                    (Ascii.Ascii false false true true false true false
+                                                                       false)
+                                                                    (String.String
+                                                                       (Ascii.Ascii false false false false false true
+                                                                          false false)
+                                                                       (String.String
+                                                                          (Ascii.Ascii false false true false false
+                                                                             true true false)
+                                                                          (String.String
+                                                                             (Ascii.Ascii false false true false true
+                                                                                true true false)
+                                                                             (String.String
+                                                                                (Ascii.Ascii true false false true true
+                                                                                   true true false)
+                                                                                (String.String
+                                                                                   (Ascii.Ascii false false false false
+                                                                                      true true true false)
+                                                                                   (String.String
+                                                                                      (Ascii.Ascii true false true
+                                                                                         false false true true false)
+                                                                                      (String.String
+                                                                                         (Ascii.Ascii true false true
+                                                                                          true true true false false)
+                                                                                         (String.String
+                                                                                          (Ascii.Ascii false true true
+                                                                                          true false true true false)
+                                                                                          (String.String
+                                                                                          (Ascii.Ascii false false
+                                                                                          false false true true true
+                                                                                          false)
+                                                                                          (String.String
+                                                                                          (Ascii.Ascii false true true
+                                                                                          true false true false false)
+                                                                                          (String.String
+                                                                                          (Ascii.Ascii false true true
+                                                                                          false false true true false)
+                                                                                          (String.String
+                                                                                          (Ascii.Ascii false false true
+                                                                                          true false true true false)
+                                                                                          (String.String
+                                                                                          (Ascii.Ascii true true true
+                                                                                          true false true true false)
+                                                                                          (String.String
+                                                                                          (Ascii.Ascii true false false
+                                                                                          false false true true false)
+                                                                                          (String.String
+                                                                                          (Ascii.Ascii false false true
+                                                                                          false true true true false)
+                                                                                          (String.String
+                                                                                          (Ascii.Ascii false true true
+                                                                                          false true true false false)
+                                                                                          (String.String
+                                                                                          (Ascii.Ascii false false true
+                                                                                          false true true false false)
+                                                                                          (String.String
+                                                                                          (Ascii.Ascii true false false
+                                                                                          true false true false false)
+                                                                                          (String.String
+                                                                                          (Ascii.Ascii false false
+                                                                                          false false false true false
+                                                                                          false)
+                                                                                          (String.String
+                                                                                          (Ascii.Ascii true false false
+                                                                                          true false true true false)
+                                                                                          (String.String
+                                                                                          (Ascii.Ascii false true true
+                                                                                          false false true true false)
+                                                                                          (String.String
+                                                                                          (Ascii.Ascii false false
+                                                                                          false false false true false
+                                                                                          false)
+                                                                                          (String.String
+                                                                                          (Ascii.Ascii true true true
+                                                                                          false false true true false)
+                                                                                          (String.String
+                                                                                          (Ascii.Ascii false true false
+                                                                                          false true true true false)
+                                                                                          (String.String
+                                                                                          (Ascii.Ascii true false false
+                                                                                          false false true true false)
+                                                                                          (String.String
+                                                                                          (Ascii.Ascii false false true
+                                                                                          false false true true false)
+                                                                                          (String.String
+                                                                                          (Ascii.Ascii true false false
+                                                                                          true false true true false)
+                                                                                          (String.String
+                                                                                          (Ascii.Ascii true false true
+                                                                                          false false true true false)
+                                                                                          (String.String
+                                                                                          (Ascii.Ascii false true true
+                                                                                          true false true true false)
+                                                                                          (String.String
+                                                                                          (Ascii.Ascii false false true
+                                                                                          false true true true false)
+                                                                                          (String.String
+                                                                                          (Ascii.Ascii false false
+                                                                                          false false false true false
+                                                                                          false)
+                                                                                          (String.String
+                                                                                          (Ascii.Ascii true false false
+                                                                                          true false true true false)
+                                                                                          (String.String
+                                                                                          (Ascii.Ascii true true false
+                                                                                          false true true true false)
+                                                                                          (String.String
+                                                                                          (Ascii.Ascii false false
+                                                                                          false false false true false
+                                                                                          false)
+                                                                                          (String.String
+                                                                                          (Ascii.Ascii false true true
+                                                                                          true false true true false)
+                                                                                          (String.String
+                                                                                          (Ascii.Ascii true true true
+                                                                                          true false true true false)
+                                                                                          (String.String
+                                                                                          (Ascii.Ascii false false true
+                                                                                          false true true true false)
+                                                                                          (String.String
+                                                                                          (Ascii.Ascii false false
+                                                                                          false false false true false
+                                                                                          false)
+                                                                                          (String.String
+                                                                                          (Ascii.Ascii false true true
+                                                                                          true false false true false)
+                                                                                          (String.String
+                                                                                          (Ascii.Ascii true true true
+                                                                                          true false true true false)
+                                                                                          (String.String
+                                                                                          (Ascii.Ascii false true true
+                                                                                          true false true true false)
+                                                                                          (String.String
+                                                                                          (Ascii.Ascii true false true
+                                                                                          false false true true false)
+                                                                                          (String.String
+                                                                                          (Ascii.Ascii false false
+                                                                                          false false false true false
+                                                                                          false)
+                                                                                          (String.String
+                                                                                          (Ascii.Ascii true false true
+                                                                                          false false true true false)
+                                                                                          (String.String
+                                                                                          (Ascii.Ascii false false true
+                                                                                          true false true true false)
+                                                                                          (String.String
+                                                                                          (Ascii.Ascii true true false
+                                                                                          false true true true false)
+                                                                                          (String.String
+                                                                                          (Ascii.Ascii true false true
+                                                                                          false false true true false)
+                                                                                          (String.String
+                                                                                          (Ascii.Ascii false false
+                                                                                          false false false true false
+                                                                                          false)
+                                                                                          (String.String
+                                                                                          (Ascii.Ascii false true true
+                                                                                          true false false true false)
+                                                                                          (String.String
+                                                                                          (Ascii.Ascii true true true
+                                                                                          true false true true false)
+                                                                                          (String.String
+                                                                                          (Ascii.Ascii false true true
+                                                                                          true false true true false)
+                                                                                          (String.String
+                                                                                          (Ascii.Ascii true false true
+                                                                                          false false true true false)
+                                                                                          String.EmptyString))))))))))))))))))))))))))))))))))))))))))))))))))))))))))))))))))))))));
+        (String.String (Ascii.Ascii false true true false true true true false)
+           (String.String (Ascii.Ascii false true false true true true true false)
+              (String.String (Ascii.Ascii true false true false false true true false)
+                 (String.String (Ascii.Ascii false true false false true true true false)
+                    (String.String (Ascii.Ascii true true true true false true true false) String.EmptyString)))),
+         String.String (Ascii.Ascii false true true false true true true false)
+           (String.String (Ascii.Ascii false true false true true true true false)
+              (String.String (Ascii.Ascii true false true false false true true false)
+                 (String.String (Ascii.Ascii false true false false true true true false)
+                    (String.String (Ascii.Ascii true true true true false true true false) String.EmptyString)))))] /\
+       ApiGen.ttinit_2d_stored =
+       [(String.String (Ascii.Ascii true true true true true false true false)
+           (String.String (Ascii.Ascii true true true false false true true false)
+              (String.String (Ascii.Ascii false true false false true true true false)
+                 (String.String (Ascii.Ascii true false false true false true true false)
+                    (String.String (Ascii.Ascii false false true false false true true false) String.EmptyString)))),
+         String.String (Ascii.Ascii false true true true false true true false)
+           (String.String (Ascii.Ascii false false false false true true true false)
+              (String.String (Ascii.Ascii false true true true false true false false)
+                 (String.String (Ascii.Ascii true false false false false true true false)
+                    (String.String (Ascii.Ascii true true false false true true true false)
+                       (String.String (Ascii.Ascii true false false false false true true false)
+                          (String.String (Ascii.Ascii false true false false true true true false)
+                             (String.String (Ascii.Ascii false true false false true true true false)
+                                (String.String (Ascii.Ascii true false false false false true true false)
+                                   (String.String (Ascii.Ascii true false false true true true true false)
+                                      (String.String (Ascii.Ascii false false false true false true false false)
+                                         (String.String (Ascii.Ascii true true true false false true true false)
+                                            (String.String (Ascii.Ascii false true false false true true true false)
+                                               (String.String (Ascii.Ascii true false false true false true true false)
+                                                  (String.String
+                                                     (Ascii.Ascii false false true false false true true false)
+                                                     (String.String
+                                                        (Ascii.Ascii false false true true false true false false)
+                                                        (String.String
+                                                           (Ascii.Ascii false false false false false true false false)
+                                                           (String.String
+                                                              (Ascii.Ascii false false true false false true true false)
+                                                              (String.String
+                                                                 (Ascii.Ascii false false true false true true true
+                                                                    false)
+                                                                 (String.String
+                                                                    (Ascii.Ascii true false false true true true true
+                                                                       false)
+                                                                    (String.String
+                                                                       (Ascii.Ascii false false false false true true
+                                                                          true false)
+                                                                       (String.String
+                                                                          (Ascii.Ascii true false true false false true
+                                                                             true false)
+                                                                          (String.String
+                                                                             (Ascii.Ascii true false true true true
+                                                                                true false false)
+                                                                             (String.String
+                                                                                (Ascii.Ascii false true true true false
+                                                                                   true true false)
+                                                                                (String.String
+                                                                                   (Ascii.Ascii false false false false
+                                                                                      true true true false)
+                                                                                   (String.String
+                                                                                      (Ascii.Ascii false true true true
+                                                                                         false true false false)
+                                                                                      (String.String
+                                                                                         (Ascii.Ascii false true true
+                                                                                          false false true true false)
+                                                                                         (String.String
+                                                                                          (Ascii.Ascii false false true
+                                                                                          true false true true false)
+                                                                                          (String.String
+                                                                                          (Ascii.Ascii true true true
+                                                                                          true false true true false)
+                                                                                          (String.String
+                                                                                          (Ascii.Ascii true false false
+                                                                                          false false true true false)
+                                                                                          (String.String
+                                                                                          (Ascii.Ascii false false true
+                                                                                          false true true true false)
+                                                                                          (String.String
+                                                                                          (Ascii.Ascii false true true
+                                                                                          false true true false false)
+                                                                                          (String.String
+                                                                                          (Ascii.Ascii false false true
+                                                                                          false true true false false)
+                                                                                          (String.String
+                                                                                          (Ascii.Ascii true false false
+                                                                                          true false true false false)
+                                                                                          String.EmptyString))))))))))))))))))))))))))))))))));
+        (String.String (Ascii.Ascii true true true true true false true false)
+           (String.String (Ascii.Ascii true true true false false true true false)
+              (String.String (Ascii.Ascii false true false false true true true false)
+                 (String.String (Ascii.Ascii true false false true false true true false)
+                    (String.String (Ascii.Ascii false false true false false true true false)
+                       (String.String (Ascii.Ascii true true false false true true true false)
+                          (String.String (Ascii.Ascii true false false true false true true false)
+                             (String.String (Ascii.Ascii false true false true true true true false)
+                                (String.String (Ascii.Ascii true false true false false true true false)
+                                   String.EmptyString)))))))),
+         String.String (Ascii.Ascii false false true false true true true false)
+           (String.String (Ascii.Ascii true false true false true true true false)
+              (String.String (Ascii.Ascii false false false false true true true false)
+                 (String.String (Ascii.Ascii false false true true false true true false)
+                    (String.String (Ascii.Ascii true false true false false true true false)
+                       (String.String (Ascii.Ascii false false false true false true false false)
+                          (String.String (Ascii.Ascii false false false true false true false false)
+                             (String.String (Ascii.Ascii false true true false false true true false)
+                                (String.String (Ascii.Ascii false false true true false true true false)
+                                   (String.String (Ascii.Ascii true true true true false true true false)
+                                      (String.String (Ascii.Ascii true false false false false true true false)
+                                         (String.String (Ascii.Ascii false false true false true true true false)
+                                            (String.String (Ascii.Ascii false false false true false true false false)
+                                               (String.String (Ascii.Ascii false false false true true true true false)
+                                                  (String.String
+                                                     (Ascii.Ascii true false false true false true false false)
+                                                     (String.String
+                                                        (Ascii.Ascii false false false false false true false false)
+                                                        (String.String
+                                                           (Ascii.Ascii false true true false false true true false)
+                                                           (String.String
+                                                              (Ascii.Ascii true true true true false true true false)
+                                                              (String.String
+                                                                 (Ascii.Ascii false true false false true true true
+                                                                    false)
+                                                                 (String.String
+                                                                    (Ascii.Ascii false false false false false true
+                                                                       false false)
+                                                                    (String.String
+                                                                       (Ascii.Ascii false false false true true true
+                                                                          true false)
+                                                                       (String.String
+                                                                          (Ascii.Ascii false false false false false
+                                                                             true false false)
+                                                                          (String.String
+                                                                             (Ascii.Ascii true false false true false
+                                                                                true true false)
+                                                                             (String.String
+                                                                                (Ascii.Ascii false true true true false
+                                                                                   true true false)
+                                                                                (String.String
+                                                                                   (Ascii.Ascii false false false false
+                                                                                      false true false false)
+                                                                                   (String.String
+                                                                                      (Ascii.Ascii true true true false
+                                                                                         false true true false)
+                                                                                      (String.String
+                                                                                         (Ascii.Ascii false true false
+                                                                                          false true true true false)
+                                                                                         (String.String
+                                                                                          (Ascii.Ascii true false false
+                                                                                          true false true true false)
+                                                                                          (String.String
+                                                                                          (Ascii.Ascii false false true
+                                                                                          false false true true false)
+                                                                                          (String.String
+                                                                                          (Ascii.Ascii true true false
+                                                                                          false true true true false)
+                                                                                          (String.String
+                                                                                          (Ascii.Ascii true false false
+                                                                                          true false true true false)
+                                                                                          (String.String
+                                                                                          (Ascii.Ascii false true false
+                                                                                          true true true true false)
+                                                                                          (String.String
+                                                                                          (Ascii.Ascii true false true
+                                                                                          false false true true false)
+                                                                                          (String.String
+                                                                                          (Ascii.Ascii true false false
+                                                                                          true false true false false)
+                                                                                          (String.String
+                                                                                          (Ascii.Ascii true false false
+                                                                                          true false true false false)
+                                                                                          String.EmptyString)))))))))))))))))))))))))))))))))));
+        (String.String (Ascii.Ascii true true true true true false true false)
+           (String.String (Ascii.Ascii true true true true false true true false)
+              (String.String (Ascii.Ascii false true false false true true true false)
+                 (String.String (Ascii.Ascii true false false true false true true false)
+                    (String.String (Ascii.Ascii true true true false false true true false)
+                       (String.String (Ascii.Ascii true false false true false true true false)
+                          (String.String (Ascii.Ascii false true true true false true true false) String.EmptyString)))))),
+         String.String (Ascii.Ascii false true true true false true true false)
+           (String.String (Ascii.Ascii false false false false true true true false)
+              (String.String (Ascii.Ascii false true true true false true false false)
+                 (String.String (Ascii.Ascii true false false false false true true false)
+                    (String.String (Ascii.Ascii true true false false true true true false)
+                       (String.String (Ascii.Ascii true false false false false true true false)
+                          (String.String (Ascii.Ascii false true false false true true true false)
+                             (String.String (Ascii.Ascii false true false false true true true false)
+                                (String.String (Ascii.Ascii true false false false false true true false)
+                                   (String.String (Ascii.Ascii true false false true true true true false)
+                                      (String.String (Ascii.Ascii false false false true false true false false)
+                                         (String.String (Ascii.Ascii false true true true false true true false)
+                                            (String.String (Ascii.Ascii false false false false true true true false)
+                                               (String.String (Ascii.Ascii false true true true false true false false)
+                                                  (String.String
+                                                     (Ascii.Ascii true false false false false true true false)
+                                                     (String.String
+                                                        (Ascii.Ascii true true false false true true true false)
+                                                        (String.String
+                                                           (Ascii.Ascii true false false false false true true false)
+                                                           (String.String
+                                                              (Ascii.Ascii false true false false true true true false)
+                                                              (String.String
+                                                                 (Ascii.Ascii false true false false true true true
+                                                                    false)
+                                                                 (String.String
+                                                                    (Ascii.Ascii true false false false false true true
+                                                                       false)
+                                                                    (String.String
+                                                                       (Ascii.Ascii true false false true true true
+                                                                          true false)
+                                                                       (String.String
+                                                                          (Ascii.Ascii false false false true false
+                                                                             true false false)
+                                                                          (String.String
+                                                                             (Ascii.Ascii true true true true false
+                                                                                true true false)
+                                                                             (String.String
+                                                                                (Ascii.Ascii false true false false
+                                                                                   true true true false)
+                                                                                (String.String
+                                                                                   (Ascii.Ascii true false false true
+                                                                                      false true true false)
+                                                                                   (String.String
+                                                                                      (Ascii.Ascii true true true false
+                                                                                         false true true false)
+                                                                                      (String.String
+                                                                                         (Ascii.Ascii true false false
+                                                                                          true false true true false)
+                                                                                         (String.String
+                                                                                          (Ascii.Ascii false true true
+                                                                                          true false true true false)
+                                                                                          (String.String
+                                                                                          (Ascii.Ascii false false true
+                                                                                          true false true false false)
+                                                                                          (String.String
+                                                                                          (Ascii.Ascii false false
+                                                                                          false false false true false
+                                                                                          false)
+                                                                                          (String.String
+                                                                                          (Ascii.Ascii false false true
+                                                                                          false false true true false)
+                                                                                          (String.String
+                                                                                          (Ascii.Ascii false false true
+                                                                                          false true true true false)
+                                                                                          (String.String
+                                                                                          (Ascii.Ascii true false false
+                                                                                          true true true true false)
+                                                                                          (String.String
+                                                                                          (Ascii.Ascii false false
+                                                                                          false false true true true
+                                                                                          false)
+                                                                                          (String.String
+                                                                                          (Ascii.Ascii true false true
+                                                                                          false false true true false)
+                                                                                          (String.String
+                                                                                          (Ascii.Ascii true false true
+                                                                                          true true true false false)
+                                                                                          (String.String
+                                                                                          (Ascii.Ascii false true true
+                                                                                          true false true true false)
+                                                                                          (String.String
+                                                                                          (Ascii.Ascii false false
+                                                                                          false false true true true
+                                                                                          false)
+                                                                                          (String.String
+                                                                                          (Ascii.Ascii false true true
+                                                                                          true false true false false)
+                                                                                          (String.String
+                                                                                          (Ascii.Ascii false true true
+                                                                                          false false true true false)
+                                                                                          (String.String
+                                                                                          (Ascii.Ascii false false true
+                                                                                          true false true true false)
+                                                                                          (String.String
+                                                                                          (Ascii.Ascii true true true
+                                                                                          true false true true false)
+                                                                                          (String.String
+                                                                                          (Ascii.Ascii true false false
+                                                                                          false false true true false)
+                                                                                          (String.String
+                                                                                          (Ascii.Ascii false false true
+                                                                                          false true true true false)
+                                                                                          (String.String
+                                                                                          (Ascii.Ascii false true true
+                                                                                          false true true false false)
+                                                                                          (String.String
+                                                                                          (Ascii.Ascii false false true
+                                                                                          false true true false false)
+                                                                                          (String.String
+                                                                                          (Ascii.Ascii true false false
+                                                                                          true false true false false)
+                                                                                          (String.String
+                                                                                          (Ascii.Ascii false false true
+                                                                                          true false true false false)
+                                                                                          (String.String
+                                                                                          (Ascii.Ascii false false
+                                                                                          false false false true false
+                                                                                          false)
+                                                                                          (String.String
+                                                                                          (Ascii.Ascii false false true
+                                                                                          false false true true false)
+                                                                                          (String.String
+                                                                                          (Ascii.Ascii false false true
+                                                                                          false true true true false)
+                                                                                          (String.String
+                                                                                          (Ascii.Ascii true false false
+                                                                                          true true true true false)
+                                                                                          (String.String
+                                                                                          (Ascii.Ascii false false
+                                                                                          false false true true true
+                                                                                          false)
+                                                                                          (String.String
+                                                                                          (Ascii.Ascii true false true
+                                                                                          false false true true false)
+                                                                                          (String.String
+                                                                                          (Ascii.Ascii true false true
+                                                                                          true true true false false)
+                                                                                          (String.String
+                                                                                          (Ascii.Ascii false true true
+                                                                                          true false true true false)
+                                                                                          (String.String
+                                                                                          (Ascii.Ascii false false
+                                                                                          false false true true true
+                                                                                          false)
+                                                                                          (String.String
+                                                                                          (Ascii.Ascii false true true
+                                                                                          true false true false false)
+                                                                                          (String.String
+                                                                                          (Ascii.Ascii false true true
+                                                                                          false false true true false)
+                                                                                          (String.String
+                                                                                          (Ascii.Ascii false false true
+                                                                                          true false true true false)
+                                                                                          (String.String
+                                                                                          (Ascii.Ascii true true true
+                                                                                          true false true true false)
+                                                                                          (String.String
+                                                                                          (Ascii.Ascii true false false
+                                                                                          false false true true false)
+                                                                                          (String.String
+                                                                                          (Ascii.Ascii false false true
+                                                                                          false true true true false)
+                                                                                          (String.String
+                                                                                          (Ascii.Ascii false true true
+                                                                                          false true true false false)
+                                                                                          (String.String
+                                                                                          (Ascii.Ascii false false true
+                                                                                          false true true false false)
+                                                                                          (String.String
+                                                                                          (Ascii.Ascii true false false
+                                                                                          true false true false false)
+                                                                                          String.EmptyString))))))))))))))))))))))))))))))))))))))))))))))))))))))))))))))))));
+        (String.String (Ascii.Ascii true true true true true false true false)
+           (String.String (Ascii.Ascii true true false false true true true false)
+              (String.String (Ascii.Ascii true true true true false true true false)
+                 (String.String (Ascii.Ascii true false true false true true true false)
+                    (String.String (Ascii.Ascii false true false false true true true false)
+                       (String.String (Ascii.Ascii true true false false false true true false)
+                          (String.String (Ascii.Ascii true false true false false true true false) String.EmptyString)))))),
+         String.String (Ascii.Ascii false true true true false true true false)
+           (String.String (Ascii.Ascii false false false false true true true false)
+              (String.String (Ascii.Ascii false true true true false true false false)
+                 (String.String (Ascii.Ascii true false false false false true true false)
+                    (String.String (Ascii.Ascii true true false false true true true false)
+                       (String.String (Ascii.Ascii true false false false false true true false)
+                          (String.String (Ascii.Ascii false true false false true true true false)
+                             (String.String (Ascii.Ascii false true false false true true true false)
+                                (String.String (Ascii.Ascii true false false false false true true false)
+                                   (String.String (Ascii.Ascii true false false true true true true false)
+                                      (String.String (Ascii.Ascii false false false true false true false false)
+                                         (String.String (Ascii.Ascii true true false false true true true false)
+                                            (String.String (Ascii.Ascii true true true true false true true false)
+                                               (String.String (Ascii.Ascii true false true false true true true false)
+                                                  (String.String
+                                                     (Ascii.Ascii false true false false true true true false)
+                                                     (String.String
+                                                        (Ascii.Ascii true true false false false true true false)
+                                                        (String.String
+                                                           (Ascii.Ascii true false true false false true true false)
+                                                           (String.String
+                                                              (Ascii.Ascii false false true true false true false false)
+                                                              (String.String
+                                                                 (Ascii.Ascii false false false false false true false
+                                                                    false)
+                                                                 (String.String
+                                                                    (Ascii.Ascii false false true false false true true
+                                                                       false)
+                                                                    (String.String
+                                                                       (Ascii.Ascii false false true false true true
+                                                                          true false)
+                                                                       (String.String
+                                                                          (Ascii.Ascii true false false true true true
+                                                                             true false)
+                                                                          (String.String
+                                                                             (Ascii.Ascii false false false false true
+                                                                                true true false)
+                                                                             (String.String
+                                                                                (Ascii.Ascii true false true false
+                                                                                   false true true false)
+                                                                                (String.String
+                                                                                   (Ascii.Ascii true false true true
+                                                                                      true true false false)
+                                                                                   (String.String
+                                                                                      (Ascii.Ascii false true true true
+                                                                                         false true true false)
+                                                                                      (String.String
+                                                                                         (Ascii.Ascii false false false
+                                                                                          false true true true false)
+                                                                                         (String.String
+                                                                                          (Ascii.Ascii false true true
+                                                                                          true false true false false)
+                                                                                          (String.String
+                                                                                          (Ascii.Ascii false true true
+                                                                                          false false true true false)
+                                                                                          (String.String
+                                                                                          (Ascii.Ascii false false true
+                                                                                          true false true true false)
+                                                                                          (String.String
+                                                                                          (Ascii.Ascii true true true
+                                                                                          true false true true false)
+                                                                                          (String.String
+                                                                                          (Ascii.Ascii true false false
+                                                                                          false false true true false)
+                                                                                          (String.String
+                                                                                          (Ascii.Ascii false false true
+                                                                                          false true true true false)
+                                                                                          (String.String
+                                                                                          (Ascii.Ascii false true true
+                                                                                          false true true false false)
+                                                                                          (String.String
+                                                                                          (Ascii.Ascii false false true
+                                                                                          false true true false false)
+                                                                                          (String.String
+                                                                                          (Ascii.Ascii true false false
+                                                                                          true false true false false)
+                                                                                          String.EmptyString))))))))))))))))))))))))))))))))))));
+        (String.String (Ascii.Ascii true true true true true false true false)
+           (String.String (Ascii.Ascii true true true false false true true false)
+              (String.String (Ascii.Ascii false true false false true true true false)
+                 (String.String (Ascii.Ascii true false false false false true true false)
+                    (String.String (Ascii.Ascii false false true false false true true false)
+                       (String.String (Ascii.Ascii true false false true false true true false)
+                          (String.String (Ascii.Ascii true false true false false true true false)
+                             (String.String (Ascii.Ascii false true true true false true true false)
+                                (String.String (Ascii.Ascii false false true false true true true false)
+                                   String.EmptyString)))))))),
+         String.String (Ascii.Ascii false true true true false true true false)
+           (String.String (Ascii.Ascii false false false false true true true false)
+              (String.String (Ascii.Ascii false true true true false true false false)
+                 (String.String (Ascii.Ascii true false false false false true true false)
+                    (String.String (Ascii.Ascii true true false false true true true false)
+                       (String.String (Ascii.Ascii true false false false false true true false)
+                          (String.String (Ascii.Ascii false true false false true true true false)
+                             (String.String (Ascii.Ascii false true false false true true true false)
+                                (String.String (Ascii.Ascii true false false false false true true false)
+                                   (String.String (Ascii.Ascii true false false true true true true false)
+                                      (String.String (Ascii.Ascii false false false true false true false false)
+                                         (String.String (Ascii.Ascii true true true false false true true false)
+                                            (String.String (Ascii.Ascii false true false false true true true false)
+                                               (String.String
+                                                  (Ascii.Ascii true false false false false true true false)
+                                                  (String.String
+                                                     (Ascii.Ascii false false true false false true true false)
+                                                     (String.String
+                                                        (Ascii.Ascii true false false true false true true false)
+                                                        (String.String
+                                                           (Ascii.Ascii true false true false false true true false)
+                                                           (String.String
+                                                              (Ascii.Ascii false true true true false true true false)
+                                                              (String.String
+                                                                 (Ascii.Ascii false false true false true true true
+                                                                    false)
+                                                                 (String.String
+                                                                    (Ascii.Ascii false false true true false true false
+                                                                       false)
+                                                                    (String.String
+                                                                       (Ascii.Ascii false false false false false true
+                                                                          false false)
+                                                                       (String.String
+                                                                          (Ascii.Ascii false false true false false
+                                                                             true true false)
+                                                                          (String.String
+                                                                             (Ascii.Ascii false false true false true
+                                                                                true true false)
+                                                                             (String.String
+                                                                                (Ascii.Ascii true false false true true
+                                                                                   true true false)
+                                                                                (String.String
+                                                                                   (Ascii.Ascii false false false false
+                                                                                      true true true false)
+                                                                                   (String.String
+                                                                                      (Ascii.Ascii true false true
+                                                                                         false false true true false)
+                                                                                      (String.String
+                                                                                         (Ascii.Ascii true false true
+                                                                                          true true true false false)
+                                                                                         (String.String
+                                                                                          (Ascii.Ascii false true true
+                                                                                          true false true true false)
+                                                                                          (String.String
+                                                                                          (Ascii.Ascii false false
+                                                                                          false false true true true
+                                                                                          false)
+                                                                                          (String.String
+                                                                                          (Ascii.Ascii false true true
+                                                                                          true false true false false)
+                                                                                          (String.String
+                                                                                          (Ascii.Ascii false true true
+                                                                                          false false true true false)
+                                                                                          (String.String
+                                                                                          (Ascii.Ascii false false true
+                                                                                          true false true true false)
+                                                                                          (String.String
+                                                                                          (Ascii.Ascii true true true
+                                                                                          true false true true false)
+                                                                                          (String.String
+                                                                                          (Ascii.Ascii true false false
+                                                                                          false false true true false)
+                                                                                          (String.String
+                                                                                          (Ascii.Ascii false false true
+                                                                                          false true true true false)
+                                                                                          (String.String
+                                                                                          (Ascii.Ascii false true true
+                                                                                          false true true false false)
+                                                                                          (String.String
+                                                                                          (Ascii.Ascii false false true
+                                                                                          false true true false false)
+                                                                                          (String.String
+                                                                                          (Ascii.Ascii true false false
+                                                                                          true false true false false)
+                                                                                          (String.String
+                                                                                          (Ascii.Ascii false false
+                                                                                          false false false true false
+                                                                                          false)
+                                                                                          (String.String
+                                                                                          (Ascii.Ascii true false false
+                                                                                          true false true true false)
+                                                                                          (String.String
+                                                                                          (Ascii.Ascii false true true
+                                                                                          false false true true false)
+                                                                                          (String.String
+                                                                                          (Ascii.Ascii false false
+                                                                                          false false false true false
+                                                                                          false)
+                                                                                          (String.String
+                                                                                          (Ascii.Ascii true true true
+                                                                                          false false true true false)
+                                                                                          (String.String
+                                                                                          (Ascii.Ascii false true false
+                                                                                          false true true true false)
+                                                                                          (String.String
+                                                                                          (Ascii.Ascii true false false
+                                                                                          false false true true false)
+                                                                                          (String.String
+                                                                                          (Ascii.Ascii false false true
+                                                                                          false false true true false)
+                                                                                          (String.String
+                                                                                          (Ascii.Ascii true false false
+                                                                                          true false true true false)
+                                                                                          (String.String
+                                                                                          (Ascii.Ascii true false true
+                                                                                          false false true true false)
+                                                                                          (String.String
+                                                                                          (Ascii.Ascii false true true
+                                                                                          true false true true false)
+                                                                                          (String.String
+                                                                                          (Ascii.Ascii false false true
+                                                                                          false true true true false)
+                                                                                          (String.String
+                                                                                          (Ascii.Ascii false false
+                                                                                          false false false true false
+                                                                                          false)
+                                                                                          (String.String
+                                                                                          (Ascii.Ascii true false false
+                                                                                          true false true true false)
+                                                                                          (String.String
+                                                                                          (Ascii.Ascii true true false
+                                                                                          false true true true false)
+                                                                                          (String.String
+                                                                                          (Ascii.Ascii false false
+                                                                                          false false false true false
+                                                                                          false)
+                                                                                          (String.String
+                                                                                          (Ascii.Ascii false true true
+                                                                                          true false true true false)
+                                                                                          (String.String
+                                                                                          (Ascii.Ascii true true true
+                                                                                          true false true true false)
+                                                                                          (String.String
+                                                                                          (Ascii.Ascii false false true
+                                                                                          false true true true false)
+                                                                                          (String.String
+                                                                                          (Ascii.Ascii false false
+                                                                                          false false false true false
+                                                                                          false)
+                                                                                          (String.String
+                                                                                          (Ascii.Ascii false true true
+                                                                                          true false false true false)
+                                                                                          (String.String
+                                                                                          (Ascii.Ascii true true true
+                                                                                          true false true true false)
+                                                                                          (String.String
+                                                                                          (Ascii.Ascii false true true
+                                                                                          true false true true false)
+                                                                                          (String.String
+                                                                                          (Ascii.Ascii true false true
+                                                                                          false false true true false)
+                                                                                          (String.String
+                                                                                          (Ascii.Ascii false false
+                                                                                          false false false true false
+                                                                                          false)
+                                                                                          (String.String
+                                                                                          (Ascii.Ascii true false true
+                                                                                          false false true true false)
+                                                                                          (String.String
+                                                                                          (Ascii.Ascii false false true
+                                                                                          true false true true false)
+                                                                                          (String.String
+                                                                                          (Ascii.Ascii true true false
+                                                                                          false true true true false)
+                                                                                          (String.String
+                                                                                          (Ascii.Ascii true false true
+                                                                                          false false true true false)
+                                                                                          (String.String
+                                                                                          (Ascii.Ascii false false
+                                                                                          false false false true false
+                                                                                          false)
+                                                                                          (String.String
+                                                                                          (Ascii.Ascii false true true
+                                                                                          true false false true false)
+                                                                                          (String.String
+                                                                                          (Ascii.Ascii true true true
+                                                                                          true false true true false)
+                                                                                          (String.String
+                                                                                          (Ascii.Ascii false true true
+                                                                                          true false true true false)
+                                                                                          (String.String
+                                                                                          (Ascii.Ascii true false true
+                                                                                          false false true true false)
+                                                                                          String.EmptyString))))))))))))))))))))))))))))))))))))))))))))))))))))))))))))))))))))))));
+        (String.String (Ascii.Ascii true true true true true false true false)
+           (String.String (Ascii.Ascii false true true false true true true false)
+              (String.String (Ascii.Ascii false true false true true true true false)
+                 (String.String (Ascii.Ascii true false true false false true true false)
+                    (String.String (Ascii.Ascii false true false false true true true false)
+                       (String.String (Ascii.Ascii true true true true false true true false) String.EmptyString))))),
+         String.String (Ascii.Ascii false true true false true true true false)
+           (String.String (Ascii.Ascii false true false true true true true false)
+              (String.String (Ascii.Ascii true false true false false true true false)
+                 (String.String (Ascii.Ascii false true false false true true true false)
+                    (String.String (Ascii.Ascii true true true true false true true false) String.EmptyString)))))].
+Proof. exact @ApiGenEq.gen_ttinit_2d. Qed.
+
+(* 3D *)
+Theorem C09_traveltime_grid_constructor_3d :
+  ApiGen.ttinit_3d_params = ApiGen.ttinit_2d_params /\
+       ApiGen.ttinit_3d_super = ApiGen.ttinit_2d_super /\ ApiGen.ttinit_3d_stored = ApiGen.ttinit_2d_stored.
+Proof. exact @ApiGenEq.gen_ttinit_3d. Qed.
+
 Print Assumptions C09_vinterp2d_outside.
 Print Assumptions C09_vinterp2d_source_cell_any_instance.
 Print Assumptions C09_vinterp2d_source.
@@ -324,3 +1870,7 @@ Print Assumptions C09_vinterp3d_spec.
 Print Assumptions C09_vinterp3d_node.
 Print Assumptions C09_vinterp3d_bounds.
 Print Assumptions C09_vinterp3d_homogeneous_exact.
+Print Assumptions C09_traveltime_call_wiring_2d.
+Print Assumptions C09_traveltime_call_wiring_3d.
+Print Assumptions C09_traveltime_grid_constructor_2d.
+Print Assumptions C09_traveltime_grid_constructor_3d.
